@@ -80,7 +80,7 @@ def run_case(c):
         i = {"kind": "chord", "chord": ch, "base": c["base"], "sh": c["sh"], "root": c["root"], "k": c["k"]}
         R.append(call("determine", dict(i, flags="default"), lambda: both(chord)))
         R.append(call("determine", dict(i, flags="no_polychords"), lambda: both(chord, no_polychords=True)))
-    elif k in ("triple", "random", "theory"):
+    elif k in ("triple", "random", "theory", "extended"):
         R.append(call("determine", {"kind": k, "chord": ch, "base": [], "k": 0, "flags": "default"}, lambda: both(chord)))
     elif k == "small":
         def f():
